@@ -83,6 +83,14 @@ def dump_mir(crate, logdir=None):
     return p.stdout, dt
 
 
+def static_world(crate):
+    """A World without MIR: source access only (struct layouts for the generated replay code)."""
+    w = symex.World([], REPO)
+    w.crate_dirs = [CRATES[c]["dir"] + "/src" for c in [crate] + CRATES[crate].get("extra", [])]
+    w.extra_src_dirs = list(CRATES[crate].get("decl_dirs", []))
+    return w
+
+
 def load_world(crate, logdir=None):
     text, dt = dump_mir(crate, logdir)
     items = mirparse.parse(text)
@@ -198,10 +206,10 @@ class Native:
             return {"error": f"rc={p.returncode} {p.stderr[:300]}"}
         view = {}
         for ln in p.stdout.split("\n"):
-            if "=" in ln:
-                k, v = ln.split("=", 1)
-                v = v.strip()
-                view[k.strip()] = (v == "true") if v in ("true", "false") else int(v)
+            m = re.fullmatch(r"(\w+)=(-?\d+|true|false)", ln.strip())      # other lines: msg! output of the real code
+            if m:
+                k, v = m.group(1), m.group(2)
+                view[k] = (v == "true") if v in ("true", "false") else int(v)
         if "some" in view:
             view["some"] = bool(view["some"])
         return {"view": view}
@@ -226,7 +234,10 @@ def encode(ob, world):
     item, subst = ob.locate(world)
     ex.stubs = [(re.compile("^" + p + "$"), (lambda e, m, a, f=f: f(e, m, a, vals))) for p, f in ob.stubs]
     ex.tap_rx = [(n, re.compile("^" + p + "$")) for n, (p, _) in ob.taps.items()]
-    ret = ex.run(item, subst, ob.args(vals), init_locals=ob.init_locals(vals) if ob.init_locals else None)
+    if ob.runner:
+        ret = ob.runner(ex, item, subst, vals)
+    else:
+        ret = ex.run(item, subst, ob.args(vals), init_locals=ob.init_locals(vals) if ob.init_locals else None)
     enc = Encoded()
     enc.ex = ex
     enc.item = item
@@ -237,7 +248,14 @@ def encode(ob, world):
     for n, (_, f) in ob.taps.items():
         if n not in ex.taps:
             raise Unsupported(f"tap {n}: the call was never executed")
-        for k, t in f(*ex.taps[n]).items():
+        calls = ex.taps[n]
+        # a tap function takes (args, result) of the single matching call, or - with a third parameter -
+        # the list of all matching calls in execution order (bounded unrolling)
+        import inspect
+        vals_ = f(calls) if len(inspect.signature(f).parameters) == 1 else (f(*calls[0][:2]) if len(calls) == 1 else None)
+        if vals_ is None:
+            raise Unsupported(f"tap {n}: {len(calls)} matching calls")
+        for k, t in vals_.items():
             enc.o[k] = E(t)
     enc.assume = E(ob.assume(enc.i)).t if ob.assume else True
     return enc
@@ -514,7 +532,7 @@ class Runner:
             self.res["known_findings"].append(f"{known} [witness {ob.name} / {label}: inputs={inputs} native={nat.get('view', nat)}; replay {path}]")
         elif reproduced:
             self.res["violations"].append({"replay": path, "obligation": ob.name, "label": label,
-                                           "inputs": inputs, "native": nat})
+                                           "inputs": inputs, "native": nat, "finding_key": rec.get("key")})
             log(f"  E2 counterexample reproduces natively: {ob.name} / {label}: inputs={inputs} native={nat}")
         else:
             self.inconclusive(f"{ob.name}/{label}: solver model does not reproduce natively ({why}); "
